@@ -3,7 +3,7 @@ import inspect
 from dataclasses import is_dataclass
 from typing import Any, List
 
-from func_adl.util_ast import lambda_build
+from func_adl.util_ast import as_literal, lambda_build
 
 
 def resolve_syntatic_sugar(a: ast.AST) -> ast.AST:
@@ -87,7 +87,7 @@ def resolve_syntatic_sugar(a: ast.AST) -> ast.AST:
             return a
 
         def convert_call_to_dict(
-            self, a: ast.Call, node: ast.AST, sig_arg_names: List[str]
+            self, a: ast.Call, node: ast.AST, sig_arg_names: List[str], defaults=None
         ) -> ast.AST:
             """Translate a data class into a dictionary.
 
@@ -117,6 +117,15 @@ def resolve_syntatic_sugar(a: ast.AST) -> ast.AST:
             for name in sig_arg_names[len(arg_values) :]:
                 if name in arg_lookup:
                     arg_values.append(arg_lookup[name])
+                    arg_names.append(ast.Constant(value=name))
+                elif defaults is not None and name in defaults:
+                    # The field keeps its default value, as it does in python
+                    if not isinstance(defaults[name], (str, bytes, int, float, bool, complex)):
+                        raise ValueError(
+                            f"Default value of field {name} can't be sent as a literal"
+                            f" - {ast.unparse(node)}."
+                        )
+                    arg_values.append(as_literal(defaults[name]))
                     arg_names.append(ast.Constant(value=name))
 
             for name in arg_lookup.keys():
@@ -166,13 +175,20 @@ def resolve_syntatic_sugar(a: ast.AST) -> ast.AST:
                             f" - {ast.unparse(node)}."
                         )
 
-                    return self.convert_call_to_dict(a, node, sig_arg_names)
+                    sig_defaults = {
+                        p.name: p.default
+                        for p in signature.parameters.values()
+                        if p.default is not p.empty
+                    }
+                    return self.convert_call_to_dict(a, node, sig_arg_names, sig_defaults)
 
                 elif hasattr(a.func.value, "_fields"):
                     # We have a named tuple. Turn it into a dictionary
                     arg_names = [n for n in a.func.value._fields]
 
-                    return self.convert_call_to_dict(a, node, arg_names)
+                    return self.convert_call_to_dict(
+                        a, node, arg_names, dict(getattr(a.func.value, "_field_defaults", {}))
+                    )
             return a
 
     return syntax_transformer().visit(a)
